@@ -11,7 +11,12 @@ import (
 // (the state after an arbitrary history of restore steps): symbolic base, cursor, last line offset,
 // freshness. lines and comments are append-only in the restorer, so a prefix of concrete length with
 // symbolic values represents every history.
-func vfRestorer() *FileRestorer {
+func vfRestorer() *FileRestorer { return vfRestorerH(vfChoice("history", 2) == 1) }
+
+// vfRestorerMid is a restorer somewhere inside a file (some history has happened).
+func vfRestorerMid() *FileRestorer { return vfRestorerH(true) }
+
+func vfRestorerH(history bool) *FileRestorer {
 	r := &FileRestorer{Restorer: NewRestorer(), Alias: map[string]string{}}
 	r.nodeDecl = map[*ast.Object]dst.Node{}
 	r.nodeData = map[*ast.Object]dst.Node{}
@@ -19,7 +24,7 @@ func vfRestorer() *FileRestorer {
 	r.comments = []*ast.CommentGroup{}
 	r.base = vfInt("base", 1, 1<<20)
 	r.lines = []int{0}
-	if vfChoice("history", 2) == 0 {
+	if !history {
 		// initial state of RestoreFile
 		r.cursor = token.Pos(r.base)
 		r.cursorAtNewLine = 0
